@@ -13,7 +13,7 @@ import (
 )
 
 type c14Op struct {
-	Kind string `json:"kind"` // set setifabsent compute invalidate get invalidateall getmaximum coldest
+	Kind string `json:"kind"` // set setifabsent compute invalidate get invalidateall getmaximum coldest setmaximum weightedsize hottest
 	Key  int    `json:"key"`
 }
 
@@ -27,7 +27,7 @@ type c14Case struct {
 func genC14(t *rapid.T) c14Case {
 	c := c14Case{Max: rapid.IntRange(1, 4).Draw(t, "max"), Prefill: rapid.IntRange(0, 4).Draw(t, "prefill")}
 	nt := rapid.IntRange(1, 4).Draw(t, "threads")
-	kinds := []string{"set", "set", "set", "set", "setifabsent", "compute", "invalidate", "get", "get", "invalidateall", "getmaximum", "coldest"}
+	kinds := []string{"set", "set", "set", "set", "set", "set", "setifabsent", "compute", "invalidate", "get", "get", "invalidateall", "getmaximum", "coldest", "setmaximum", "weightedsize", "hottest"}
 	for i := 0; i < nt; i++ {
 		ops := rapid.SliceOfN(rapid.Custom(func(t *rapid.T) c14Op {
 			return c14Op{Kind: kinds[rapid.IntRange(0, len(kinds)-1).Draw(t, "kind")], Key: rapid.IntRange(0, 5).Draw(t, "key")}
@@ -103,6 +103,21 @@ func runC14(c c14Case) outcome {
 					cache.InvalidateAll()
 				case "getmaximum":
 					cache.GetMaximum()
+				case "weightedsize":
+					cache.WeightedSize()
+				case "setmaximum":
+					// holds the eviction lock, runs a maintenance cycle (evictions are hook points) and must hand over to another
+					// run when a write arrived meanwhile; the bound is lowered and restored so that the final oracle still uses c.Max
+					cache.SetMaximum(uint64(max(1, c.Max-1)))
+					cache.SetMaximum(uint64(c.Max))
+				case "hottest":
+					n := 0
+					for range cache.Hottest() {
+						n++
+						if n == 1 {
+							break // left early
+						}
+					}
 				case "coldest":
 					// an iteration under the eviction lock (the hook handler parks inside it when entries are evicted);
 					// it must not be the thread's last operation, otherwise its own maintenance could hide a stranded write
@@ -160,7 +175,7 @@ func runC14(c c14Case) outcome {
 func TestC14_DrainProtocol(t *testing.T) {
 	propMain(t, propSpec[c14Case]{
 		Prop: "C14", Test: "DrainProtocol",
-		Rule: "hook-point cooperative scheduling: 1-4 writer/reader threads with 1-6 operations each (Set, SetIfAbsent, Compute, Invalidate, GetIfPresent, and - rarely - InvalidateAll and GetMaximum, which take the eviction lock without necessarily running maintenance) on a MaximumSize 1..4 cache with Options.Executor nil; the default executor is swapped for one whose goroutines are adopted as logical threads; " +
+		Rule: "hook-point cooperative scheduling: 1-4 writer/reader threads with 1-6 operations each (Set, SetIfAbsent, Compute, Invalidate, GetIfPresent, and - rarely - InvalidateAll, GetMaximum, WeightedSize, SetMaximum and (complete or abandoned) Hottest/Coldest traversals, which take the eviction lock with or without running maintenance) on a MaximumSize 1..4 cache with Options.Executor nil; the default executor is swapped for one whose goroutines are adopted as logical threads; " +
 			"every thread parks at each verif hook point (after the table computation, after the write-buffer push, scheduleAfterWrite loop head, scheduleDrainBuffers entry and after its try-lock, drainBuffers entry, maintenance after the drain and before its final CAS, rescheduleCleanUpIfIncomplete, around evictions, inside the MPSC push/resize) " +
 			"and a generated []int picks which parked thread runs next (2 ms watchdog hands control on when a thread blocks on a mutex or spins); oracle once every thread and every cache-started goroutine has finished, without any further cache call: drain status idle, write buffer empty, EstimatedSize <= maximum, #OnDeletion == #OnAtomicDeletion; " +
 			"non-trivial = some scheduleAfterWrite observed a processing drain status; distinct = program + resulting hook trace; a scheduler hang (5 s) is inconclusive",
